@@ -30,6 +30,7 @@ type c13Case struct {
 	Sec     string `json:"sec"`
 	Preset  bool   `json:"preset"`
 	Unsized bool   `json:"unsized"`
+	Pad     string `json:"pad"`
 	Skip    bool   `json:"skip"`
 	Loc     string `json:"loc"`
 	Shape   string `json:"shape"`
@@ -126,6 +127,12 @@ func c13Run(c *Case) []any {
 			}
 		}
 		bodyText = taggedToJSONText(tc.V)
+		switch tc.Pad {
+		case "newline":
+			bodyText += "\n"
+		case "spaces":
+			bodyText = "  " + bodyText + " \r\n"
+		}
 		hdr.Set("Content-Type", tc.Ct)
 	} else {
 		method = "GET"
